@@ -472,6 +472,11 @@ func runC08(p *core.Prog, r *core.Report, tier string) {
 				if d, ok := in.(*ssa.Defer); ok && core.MethodName(d.Common()) == "Release" {
 					deferred = append(deferred, in)
 				}
+				// an explicit Release counts as well: what is decided is that no path from the successful Acquire to a
+				// return misses the release
+				if c, ok := in.(*ssa.Call); ok && core.MethodName(c.Common()) == "Release" {
+					deferred = append(deferred, in)
+				}
 			})
 			isDef := func(in ssa.Instruction) bool {
 				for _, d := range deferred {
@@ -494,7 +499,7 @@ func runC08(p *core.Prog, r *core.Report, tier string) {
 				}
 				return true
 			}}.Find()
-			r.Check(w == nil && len(deferred) > 0, "C08.g", wbase+"|release-deferred", p.Pos(a.Pos()), "a successful Acquire is followed by a deferred Release on every path", "the semaphore is not released by defer on some path after a successful Acquire (a panicking or early-returning worker keeps the permit)", p.WitnessText(w)...)
+			r.Check(w == nil && len(deferred) > 0, "C08.g", wbase+"|release-deferred", p.Pos(a.Pos()), "a successful Acquire is followed by a Release on every path to a return", "the semaphore is not released on some path after a successful Acquire (an early-returning worker keeps the permit, and the next submission waits for it)", p.WitnessText(w)...)
 		}
 		// (h) classification helpers
 		for _, hc := range core.Calls(W, func(c *ssa.CallCommon) bool {
@@ -507,7 +512,7 @@ func runC08(p *core.Prog, r *core.Report, tier string) {
 			}
 			helpersSeen[h] = true
 			serverTest := func(c core.Cond) int {
-				if c.Op != "==" {
+				if c.Op != "==" && c.Op != "!=" {
 					return -1
 				}
 				for _, side := range [][2]*core.VD{{c.X, c.Y}, {c.Y, c.X}} {
@@ -747,6 +752,17 @@ func checkScatter(p *core.Prog, r *core.Report, ds *core.Describer, f *ssa.Funct
 				hasGo = true
 			case *ssa.Select:
 				hasSel = true
+			case *ssa.UnOp:
+				// a plain receive from one of the function's own channels (results and errors sent as one message)
+				if u := in.(*ssa.UnOp); u.Op == token.ARROW {
+					x := u.X
+					if st := singleStoreOf(x); st != nil {
+						x = st
+					}
+					if _, own := x.(*ssa.MakeChan); own {
+						hasSel = true
+					}
+				}
 			}
 		})
 		if hasGo {
@@ -756,7 +772,7 @@ func checkScatter(p *core.Prog, r *core.Report, ds *core.Describer, f *ssa.Funct
 			recvLoops = append(recvLoops, l)
 		}
 	}
-	if len(goLoops) != 1 || len(recvLoops) != 1 || len(chans) < 2 {
+	if len(goLoops) != 1 || len(recvLoops) != 1 || len(chans) < 1 {
 		r.Violate("C08.i", base+"|shape", p.Pos(f.Pos()), fmt.Sprintf("Scatter is not of the shape one start loop / one collect loop / result+error channels (%d/%d/%d)", len(goLoops), len(recvLoops), len(chans)))
 		return
 	}
